@@ -38,7 +38,7 @@ def run_check(prop: str, tier: str, seed: int, overlay=None, write_evidence=True
         # two-way validation on in-memory variants of the *current* tree
         from . import selftest
 
-        cases = selftest.load_cases(prop)
+        cases = selftest.load_cases(prop, deep=True)
         res = selftest.run_cases(cases) if cases else []
         s = selftest.summary(res)
         extra = {
